@@ -103,6 +103,110 @@ def cases(tier):
     for seed in seeds():
         for first in range(len(events(seed, tier != 'quick'))):
             yield (seed, first, 3, tier != 'quick')
+    for zseed in ZERO_SEEDS:
+        yield ('zero-rows', zseed, 3 if tier == 'quick' else 4)
+
+
+ZERO_SEEDS = {
+    'FrameGO(columns=)': lambda: sf.FrameGO(columns=('a', 'b'), name='g'),
+    'FrameGO(index=())': lambda: sf.FrameGO(index=(), name='g'),
+    'from_records([])': lambda: sf.FrameGO.from_records([], columns=('a', 'b'), name='g'),
+    'iloc[:0]': lambda: sf.FrameGO.from_records([[1, 2.5]], columns=('a', 'b'), name='g').iloc[:0],
+}
+ZERO_EVENTS = [('set', 'n1', 'array-0'), ('set', 'n2', 'array-2'), ('set', 'n3', 'list-2'), ('set', 'n4', 'list-0'), ('set', 'n5', 'scalar'), ('set', 'a', 'array-0'),
+               ('set', 'n6', 'series-2'), ('extend', 'frame-0'), ('extend', 'frame-2'), ('extend_items', 'second-wrong-length'), ('derive', 'to_frame'), ('read', 'values')]
+
+
+def run_zero_rows(case, ctx):
+    '''grow-only Frames with zero rows: a value with rows is refused, and a refused call leaves labels and data in step (all-or-nothing)'''
+    _, zseed, depth = case
+    mk = ZERO_SEEDS[zseed]
+
+    def value(kind):
+        return {'array-0': np.array([], dtype=np.int64), 'array-2': np.array([1, 2]), 'list-2': [1, 2], 'list-0': [], 'scalar': 7,
+                'series-2': sf.Series([1, 2], index=('x', 'y'))}[kind]
+
+    def explore(hist):
+        f = mk()
+        if f.shape[0] != 0:
+            raise AssertionError('seed is not zero-row')
+        labels = f.columns.values.tolist()
+        info = dict(seed=zseed, history=[ZERO_EVENTS[i] for i in hist])
+        for i in hist:
+            ctx.transition()
+            ev = ZERO_EVENTS[i]
+            before = list(labels)
+            try:
+                if ev[0] == 'set':
+                    ok_expected = ev[1] not in labels and ev[2] in ('array-0', 'list-0', 'scalar', 'series-2')   # a Series is aligned to the (empty) index
+                    f[ev[1]] = value(ev[2])
+                    labels.append(ev[1])
+                elif ev[0] == 'extend':
+                    ok_expected = ev[1] == 'frame-0' and 'e1' not in labels
+                    other = sf.Frame(columns=('e1', 'e2')) if ev[1] == 'frame-0' else sf.Frame.from_records([[1, 2], [3, 4]], columns=('e1', 'e2'))
+                    f.extend(other)
+                    labels += ['e1', 'e2']
+                elif ev[0] == 'extend_items':
+                    ok_expected = False
+                    f.extend_items((('i1', np.array([], dtype=float)), ('i2', np.array([1.0, 2.0]))))
+                    labels += ['i1', 'i2']
+                elif ev[0] == 'derive':
+                    d = f.to_frame()
+                    if d.shape != (0, len(labels)):
+                        ctx.violation('zero-rows|to_frame-shape', **info, got=d.shape, expected=(0, len(labels)))
+                        return False
+                    continue
+                else:
+                    v = f.values
+                    if v.shape != (0, len(labels)) and labels:
+                        ctx.violation('zero-rows|values-shape', **info, got=v.shape, expected=(0, len(labels)))
+                        return False
+                    continue
+                accepted = True
+            except Exception as e:
+                accepted = False
+                err = e
+            if accepted and not ok_expected and ev[0] != 'extend':
+                ctx.violation(f'zero-rows|{ev[0]}:{ev[-1]}|invalid-growth-accepted', **info, shape=f.shape)
+                return False
+            if not accepted:
+                if ev[0] == 'extend_items' and len(f.columns) == len(before) + 1 and f._blocks.shape[1] == len(f.columns):
+                    labels[:] = before + ['i1']       # the known prefix behaviour of extend_items (recorded for the 3-row histories): follow the real object
+                else:
+                    labels[:] = before
+            elif ev[0] == 'extend' and not ok_expected:
+                pass
+        ctx.state(('zero-rows', zseed, tuple(labels)))
+        if len(hist) >= 2:
+            ctx.nontriv(('zero-rows', zseed, tuple(hist)))
+        try:
+            got = f.columns.values.tolist()
+            if len(f.columns) != f._blocks.shape[1] or f.shape != (0, len(got)):
+                ctx.violation('zero-rows|end-of-history|columns-and-data-out-of-step', **info, labels=got, data=f._blocks.shape, shape=f.shape)
+                return False
+            if got != labels:
+                ctx.violation('zero-rows|end-of-history|labels', **info, got=got, expected=labels)
+                return False
+            f.to_frame()
+            f['final'] = np.array([], dtype=bool)      # still usable
+            if f.shape != (0, len(labels) + 1):
+                ctx.violation('zero-rows|end-of-history|unusable-after-history', **info, shape=f.shape)
+                return False
+        except Exception as e:
+            ctx.violation(f'zero-rows|end-of-history|subject-unusable-{type(e).__name__}', **info, error=repr(e))
+            return False
+        return True
+
+    def rec(hist):
+        if not explore(hist):
+            return
+        if len(hist) < depth:
+            for j in range(len(ZERO_EVENTS)):
+                rec(hist + [j])
+    for first in range(len(ZERO_EVENTS)):
+        rec([first])
+    ctx.outcome('zero-rows')
+    ctx.sample({'family': 'zero-rows', 'seed': zseed, 'depth': depth, 'events': len(ZERO_EVENTS)}, limit=1)
 
 
 def universe(tier):
@@ -171,6 +275,8 @@ def make_value(kind, n_new, existing_first, labels, row_count=3):
 
 
 def run_case(case, ctx):
+    if case[0] == 'zero-rows':
+        return run_zero_rows(case, ctx)
     seed, first, depth, full = case
     evs = events(seed, full)
     mk = seeds()[seed]
